@@ -186,6 +186,32 @@ def paddedRoot (N s : Nat) (c : Cfg α) (ridge : α) (a : A2 α) : Nat × Try α
 
 end ops
 
+/-! ### eigh root (`matrix_inverse_pth_root_eigh`), the eigen-solver an external kernel -/
+
+/-- `val = U diag(inv_e) Uᵀ` with `e *= flip(ix)`: the first `n - s` (smallest, padding) eigenvalues are dropped;
+`invE` is `e ↦ where(e == 0 or max(e, ridge) <= 0, 0, max(e, ridge)^(-1/p))` -/
+def eighValF [Add α] [Mul α] [Zero α] (n s : Nat) (invE : α → α) (U : F α) (e : Nat → α) : F α :=
+  fun i j => sumTo n fun k => U i k * (if k < n - s then 0 else invE (e k)) * U j k
+
+/-- the eigen-solver: size and (masked, regularised) matrix ↦ eigenvectors (columns) and ascending eigenvalues -/
+abbrev Kernel (α : Type) := Nat → A2 α → F α × (Nat → α)
+
+/-- `matrix_inverse_pth_root_eigh(a, p, padding_start = s)` on an `n × n` input -/
+def eighRootA [Zero α] [One α] [Add α] [Mul α] (kernel : Kernel α) (invE : α → α) (n s : Nat) (ridge : α) (a : A2 α) : A2 α :=
+  let reg := tabM n fun i j => maskF s (rdM a) i j + ridge * eyeS s i j
+  let ue := kernel n reg
+  tabM n (eighValF n s invE ue.1 ue.2)
+
+/-- pad, root with `padding_start = s`, cut -/
+def paddedEighRoot [Zero α] [One α] [Add α] [Mul α] (kernel : Kernel α) (invE : α → α) (N s : Nat) (ridge : α) (a : A2 α) : A2 α :=
+  cutA s (eighRootA kernel invE N s ridge (padSq s N a))
+
+/-- the decomposition of `blockdiag(R, 0)` built from a decomposition `(U, e)` of `R`: `N - s` zero eigenvalues first, with
+the unit vectors of the padding coordinates, then `(u_k; 0)` -/
+def padU [Zero α] [One α] (s N : Nat) (U : F α) : F α := fun i k =>
+  if k < N - s then (if i = s + k then 1 else 0) else (if i < s then U i (k - (N - s)) else 0)
+def padE [Zero α] (s N : Nat) (e : Nat → α) : Nat → α := fun k => if k < N - s then 0 else e (k - (N - s))
+
 /-! ### batching over the tree -/
 
 /-- give every leaf its slice of the flat result list back (`idx += num_statistics`) -/
@@ -250,12 +276,43 @@ structure Slot where
   size : Nat
 deriving Repr
 
-/-- all statistic slots of a DS leaf of (merged) shape `shape`, in state order: block-major, then axis
-(`PreconditionerType.ALL`) -/
-def dsSlots (shape : List Nat) (b : Nat) : List Slot :=
-  let blocks := cart (shape.map fun d => pieces (splitSizes d b) 0)
-  (List.zipIdx blocks).flatMap fun (blk, n) =>
-    (List.zipIdx blk).map fun (os, a) => ⟨n, a, blk, os.2⟩
+/-- `PreconditionerType` -/
+inductive PType where
+  | all | input | output
+deriving Repr, DecidableEq
+
+/-- `Preconditioner.should_precondition_dims` as the list of preconditioned axes -/
+def precAxes (pt : PType) (rank : Nat) : List Nat :=
+  match pt with
+  | .all => List.range rank
+  | .input => if rank ≤ 1 then List.range rank else List.range (rank - 1)
+  | .output => if rank ≤ 1 then List.range rank else [rank - 1]
+
+/-- the blocks of a leaf: per axis (offset, size), first axis slowest (`BlockPartitioner.partition` order) -/
+def dsBlocks (shape : List Nat) (b : Nat) : List (List (Nat × Nat)) :=
+  cart (shape.map fun d => pieces (splitSizes d b) 0)
+
+/-- statistic slots of block number `n` -/
+def blockSlots (pt : PType) (n : Nat) (blk : List (Nat × Nat)) : List Slot :=
+  (precAxes pt blk.length).map fun a => ⟨n, a, blk, (blk.getD a (0, 0)).2⟩
+
+/-- slots of consecutive blocks, numbered from `n` (`for g in partitioned_grads: for axis in preconditioned_dims`) -/
+def slotsFrom (pt : PType) : Nat → List (List (Nat × Nat)) → List Slot
+  | _, [] => []
+  | n, blk :: rest => blockSlots pt n blk ++ slotsFrom pt (n + 1) rest
+
+/-- all statistic slots of a DS leaf of (merged) shape `shape`, in state order: block-major, then preconditioned axis -/
+def dsSlotsP (pt : PType) (shape : List Nat) (b : Nat) : List Slot := slotsFrom pt 0 (dsBlocks shape b)
+
+def dsSlots (shape : List Nat) (b : Nat) : List Slot := dsSlotsP .all shape b
+
+/-- the flat statistics list of a tree (`statistics.extend(state.statistics)` leaf by leaf) -/
+def treeSlots (pt : PType) (b : Nat) (shapes : List (List Nat)) : List Slot := shapes.flatMap fun sh => dsSlotsP pt sh b
+
+/-- `index_start` of every leaf in the flat / global statistics (prefix sums of the per-leaf counts) -/
+def indexStarts : List Nat → Nat → List Nat
+  | [], _ => []
+  | c :: cs, o => o :: indexStarts cs (o + c)
 
 /-- Tearfree: pieces of one dimension (`d ≥ b` is cut in `d / b` blocks of `b`) -/
 def tfPieces (d b : Nat) : List (Nat × Nat) :=
